@@ -742,6 +742,7 @@ fn routes(tier: Tier, cli: &str, st: &mut Stats, all_lines: &mut Vec<Value>) {
             st.bump(k, v);
         }
     }
+    directory_layouts(tier, &dir, &exe, st, all_lines);
     // missing grammar file
     let o = Command::new(cli).arg(dir.join("does-not-exist.ebnf")).stdout(Stdio::null()).stderr(Stdio::null()).status().unwrap();
     st.evaluations += 1;
@@ -751,6 +752,106 @@ fn routes(tier: Tier, cli: &str, st: &mut Stats, all_lines: &mut Vec<Value>) {
             "site": "peginator-cli exit status", "expected": "non-zero exit status for an unreadable grammar file", "actual": "exit status 0"}));
     }
     let _ = std::fs::remove_dir_all(&dir);
+}
+
+/// Directory mode of the build-script helper: every layout of up to three entries (named so that every listing
+/// order of the file system is some layout), each entry a good grammar, a grammar the compiler refuses, another
+/// file, or a sub-directory holding a good or a refused grammar. `run()` is Err (run_exit_on_error: status 1)
+/// exactly when some grammar below the directory is refused; when it is Ok every good grammar has its output.
+fn directory_layouts(tier: Tier, dir: &std::path::Path, exe: &std::path::Path, st: &mut Stats, all_lines: &mut Vec<Value>) {
+    const GOOD: &str = "@export R = 'a' x:X; @string X = 'b';";
+    let bads: &[&str] = if tier == Tier::Quick { &["@export R = 'a' >Missing;"] } else { &["@export R = 'a' >Missing;", "@export R = 'a' x:X", "@export @string R = 'a';"] };
+    // the library answer is the oracle for what "refused" means (the catalogue family checks the answers themselves)
+    if compile_isolated(exe, GOOD) != Some(true) {
+        st.bump("directory_layouts_skipped_good_grammar_refused", 1);
+        return;
+    }
+    let bads: Vec<&str> = bads.iter().copied().filter(|b| compile_isolated(exe, b) == Some(false)).collect();
+    st.bump("directory_layout_refused_grammars", bads.len() as u64);
+    let names = ["a", "m", "z"];
+    let kinds = ["good", "bad", "other", "sub-good", "sub-bad", "absent"];
+    use rayon::prelude::*;
+    let mut layouts: Vec<(usize, [usize; 3], &str)> = Vec::new();
+    let mut n = 0;
+    for bad in &bads {
+        for k0 in 0..kinds.len() {
+            for k1 in 0..kinds.len() {
+                for k2 in 0..kinds.len() {
+                    layouts.push((n, [k0, k1, k2], bad));
+                    n += 1;
+                }
+            }
+        }
+    }
+    let results: Vec<(u64, Vec<Value>)> = layouts
+        .par_iter()
+        .map(|(n, ks, bad)| {
+            let mut lines = Vec::new();
+            let mut evals = 0;
+            for mode in ["dir", "direxit"] {
+                let root = dir.join(format!("layout-{n}-{mode}"));
+                std::fs::create_dir_all(&root).unwrap();
+                let mut any_bad = false;
+                let mut goods: Vec<std::path::PathBuf> = Vec::new();
+                let mut desc = Vec::new();
+                for (name, k) in names.iter().zip(ks.iter()) {
+                    desc.push(format!("{name}: {}", kinds[*k]));
+                    match kinds[*k] {
+                        "good" => {
+                            std::fs::write(root.join(format!("{name}.ebnf")), GOOD).unwrap();
+                            goods.push(root.join(format!("{name}.rs")));
+                        }
+                        "bad" => {
+                            std::fs::write(root.join(format!("{name}.ebnf")), bad).unwrap();
+                            any_bad = true;
+                        }
+                        "other" => std::fs::write(root.join(format!("{name}.txt")), "not a grammar").unwrap(),
+                        "sub-good" | "sub-bad" => {
+                            std::fs::create_dir_all(root.join(name)).unwrap();
+                            let good = kinds[*k] == "sub-good";
+                            std::fs::write(root.join(name).join("inner.ebnf"), if good { GOOD } else { bad }).unwrap();
+                            if good {
+                                goods.push(root.join(name).join("inner.rs"));
+                            } else {
+                                any_bad = true;
+                            }
+                        }
+                        _ => {}
+                    }
+                }
+                let o = Command::new(exe).args(["c15compile", mode, root.to_str().unwrap()]).stdout(Stdio::null()).stderr(Stdio::null()).status().unwrap();
+                evals += 1;
+                let expect = match (any_bad, mode) {
+                    (false, _) => 0,
+                    (true, "dir") => 7,
+                    (true, _) => 1,
+                };
+                let listing: Vec<String> = std::fs::read_dir(&root).map(|rd| rd.filter_map(|e| e.ok()).map(|e| e.file_name().to_string_lossy().into_owned()).collect()).unwrap_or_default();
+                if o.code() != Some(expect) {
+                    lines.push(json!({"k":"viol","prop":"C15","kind": "compile-directory-status","grammar": bad, "input": desc.join(", "), "family":"routes", "why": "directory layout",
+                        "site": format!("Compile::directory(..).{}", if mode == "dir" { "run" } else { "run_exit_on_error" }),
+                        "expected": format!("child status {expect} (0 = Ok, 7 = Err from run(), 1 = exit code of run_exit_on_error): {}", if any_bad { "a grammar below the directory is refused" } else { "every grammar is accepted" }),
+                        "actual": format!("{:?}; entries as listed by the file system: {:?}", o.code(), listing)}));
+                } else if !any_bad {
+                    for gp in &goods {
+                        if !gp.exists() {
+                            lines.push(json!({"k":"viol","prop":"C15","kind": "compile-directory-output-missing","grammar": GOOD, "input": desc.join(", "), "family":"routes", "why": "directory layout",
+                                "site": "Compile::directory(..).run", "expected": format!("{} written", gp.display()), "actual": "Ok(()) without that file"}));
+                        }
+                    }
+                }
+                let _ = std::fs::remove_dir_all(&root);
+            }
+            (evals, lines)
+        })
+        .collect();
+    for (e, lines) in results {
+        st.evaluations += e;
+        st.nontrivial += e;
+        st.bump("directory_layout_runs", e);
+        st.violations += lines.len() as u64;
+        all_lines.extend(lines);
+    }
 }
 
 /// library answer computed in a child process: Some(true) code, Some(false) error, None died
@@ -777,6 +878,18 @@ pub fn one() {
 }
 
 pub fn compile_child(args: &[String]) {
+    if args[0] == "dir" || args[0] == "direxit" {
+        let c = Compile::directory(&args[1]);
+        if args[0] == "dir" {
+            match c.run() {
+                Ok(()) => std::process::exit(0),
+                Err(_) => std::process::exit(7),
+            }
+        } else {
+            c.run_exit_on_error();
+            std::process::exit(0);
+        }
+    }
     if args[0] == "run3" {
         // the same grammar compiled three times to the same destination: the answer must not change
         let mut codes = Vec::new();
